@@ -821,6 +821,23 @@ func (k *Kernel) Settle(max time.Duration) bool {
 	}
 }
 
+// Busiest returns the name of the goroutine that was scheduled most often and
+// its share of all steps (livelock diagnosis when the step limit is hit).
+func (k *Kernel) Busiest() (string, float64) {
+	var best *G
+	total := 0
+	for _, g := range k.gs {
+		total += g.steps
+		if best == nil || g.steps > best.steps {
+			best = g
+		}
+	}
+	if best == nil || total == 0 {
+		return "", 0
+	}
+	return best.Name, float64(best.steps) / float64(total)
+}
+
 // GInfo describes a goroutine for censuses.
 type GInfo struct {
 	ID     int
